@@ -96,6 +96,15 @@ def prefixMultOk (p : PrefixRec) : Bool :=
   if 0 < p.exp then Nat.beq p.mulNum (p.base ^ p.exp.toNat) && Nat.beq p.mulDen 1 && p.mulKind == .int
   else Nat.beq p.mulNum 1 && Nat.beq p.mulDen (p.base ^ (-p.exp).toNat) && p.mulKind == .frac
 
+/-- the prefix table against the reference: every prefix of the code is a reference prefix (same name, symbol,
+    base and exponent) and every reference prefix is in the code's table -/
+def prefixIsRef (rs : List RefPrefix) (p : PrefixRec) : Bool :=
+  rs.any (fun r => eqCp r.name p.name && eqCp r.sym p.sym && Nat.beq r.base p.base && decide (r.exp = p.exp))
+
+def prefixesMatchRef (ps : List PrefixRec) (rs : List RefPrefix) : Bool :=
+  ps.all (prefixIsRef rs) &&
+  rs.all (fun r => ps.any (fun p => eqCp r.name p.name && eqCp r.sym p.sym && Nat.beq r.base p.base && decide (r.exp = p.exp)))
+
 /-- no empty prefix spelling; two prefixes sharing a name or a symbol have the same multiplier -/
 def prefixesDistinct (ps : List PrefixRec) : Bool :=
   ps.all (fun p => !p.name.isEmpty && !p.sym.isEmpty &&
